@@ -72,7 +72,8 @@ def reach (cfg : Cfg) (forest : List Node) (fuel : Nat) (roots : List Node) : Li
   roots.flatMap (reachRoot cfg forest fuel)
 
 mutual
-/-- The hazard that makes the full statement false on the current tree: a directory on another
+/-- The shape behind the repaired finding F25 (it used to be the guard of the serial theorem; no theorem
+depends on it any more, the harness keeps it as evidence that the shape is generated): a directory on another
 device (not entered because of `same_file_system`) that is also rejected by an entry test. -/
 def hazardEntry (cfg : Cfg) (forest : List Node) (jump : List Anc → Nat → Path → Option Nat → List Node → Bool)
     (rootDev : Option Nat) (anc : List Anc) (depth : Nat) (pp : Path) : Node → Bool
